@@ -30,6 +30,29 @@ theorem parseV9OptTemplate_ctl : parseV9OptTemplateK gk = parseV9OptTemplate := 
 theorem v9TotalSize_ctl : v9TotalSizeK gk = v9TotalSize := by
   funext fs; rfl
 
+/-- a record that does not decode leaves the input where it was, so the old `fold` fails again on every remaining iteration and
+    returns what it had -/
+theorem v9RecLoop_fail (c : Config) (fs : List TField) (n : Nat) (i : Bytes) (acc : List Rec)
+    (h : v9ParseRec c fs 0 i = none) : v9RecLoop c fs n i acc = (acc, i) := by
+  induction n with
+  | zero => rfl
+  | succ n ih => simp only [v9RecLoop, h]; exact ih
+
+/-- stopping at the first record that does not decode (the code now) and going on (the `fold` before the fix) give the same result -/
+theorem v9RecLoopK_eq (stop : Bool) (c : Config) (fs : List TField) (n : Nat) (i : Bytes) (acc : List Rec) :
+    v9RecLoopK stop c fs n i acc = v9RecLoop c fs n i acc := by
+  induction n generalizing i acc with
+  | zero => rfl
+  | succ n ih =>
+    cases h : v9ParseRec c fs 0 i with
+    | none =>
+      cases stop with
+      | true => simp only [v9RecLoopK, h, if_true]; exact (v9RecLoop_fail c fs (n + 1) i acc h).symm
+      | false => simp only [v9RecLoopK, v9RecLoop, h, Bool.false_eq_true, if_false]; exact ih i acc
+    | some p =>
+      obtain ⟨r, i'⟩ := p
+      simp only [v9RecLoopK, v9RecLoop, h]; exact ih i' (acc ++ [r])
+
 theorem v9ParseBody_ctl (c : Config) (st : PState) (id : Nat) (body : Bytes) :
     v9ParseBodyK gk c st id body = v9ParseBody c st id body := by
   unfold v9ParseBodyK v9ParseBody
@@ -59,7 +82,7 @@ theorem v9ParseBody_ctl (c : Config) (st : PState) (id : Nat) (body : Bytes) :
         | some t =>
           have hf : List.find? (v9ArmGuard c st id) [V9Arm.tmpl, .optTmpl, .optData, .data] = some .data := by
             simp [List.find?, v9ArmGuard, h1, h2, h3, h4]
-          rw [hf]; simp only [v9ArmRun, h4, v9TotalSize_ctl, hz, if_true]
+          rw [hf]; simp only [v9ArmRun, h4, v9TotalSize_ctl, hz, if_true, v9RecLoopK_eq]
           try rfl
         | none =>
           have hf : List.find? (v9ArmGuard c st id) [V9Arm.tmpl, .optTmpl, .optData, .data] = none := by
